@@ -15,7 +15,8 @@ def make(rng):
     prate = rng.choice([0, 0, 1, 2, 3, 4, 7, 10])
     ptimeout = rng.choice([0, 0, 2, 3, 5, 8, 12])
     ctimeout = rng.choice([0, 0, 1, 3, 4, 9, 30])
-    sc = Scenario([], poll=poll, prate=prate, ptimeout=ptimeout, ctimeout=ctimeout)
+    # automatic pongs are switched off in a quarter of the cases: the timers must not notice (a received Pong still counts as a sign of life)
+    sc = Scenario([], poll=poll, prate=prate, ptimeout=ptimeout, ctimeout=ctimeout, autopong=rng.random() >= 0.25)
     env = [('wait', rng.randint(0, poll), ('data', sc.good_reply()))]
     ncyc = rng.randint(3, 30)
     close_at = rng.choice([None, None, rng.randint(3, 12)])
